@@ -1389,7 +1389,7 @@ pub fn gen_c18(r: &mut Rng, id: usize) -> Group {
     let valid = c.clone();
     // one fault
     let kind;
-    match r.below(11) {
+    match r.below(13) {
         0 => {
             let (e, k) = corrupt(r, &c.spec.selects[0].split('=').next().unwrap_or(".k").to_string());
             c.spec.selects[0] = format!("{e}=x");
@@ -1462,6 +1462,48 @@ pub fn gen_c18(r: &mut Rng, id: usize) -> Group {
             } else {
                 c.spec.group = Some(if r.chance(50) { None } else { Some(".g".into()) });
                 kind = "csv:grouping".into();
+            }
+        }
+        11 | 12 => {
+            // rejected by the command-line parser itself: an option given twice, a flag with a value, a value outside
+            // the enumeration, a malformed number, an unknown option — in any argument order and under any alias
+            c.shuffle = 1 + r.next() % 100_000;
+            match r.below(7) {
+                0 => {
+                    c.spec.take = Some(2);
+                    c.xargs.push(r.ps(&["--limit=3", "--take=3"]).to_string());
+                    kind = "cli:single-twice".into();
+                }
+                1 => {
+                    c.spec.unique = true;
+                    c.xargs.push("--unique".into());
+                    kind = "cli:flag-twice".into();
+                }
+                2 => {
+                    if c.spec.style.as_deref() == Some("csv") { c.spec.style = None; }
+                    c.spec.group = Some(if r.chance(50) { None } else { Some(".g".into()) });
+                    c.xargs.push(r.ps(&["--merge", "--combine", "--group-by=.g", "--group-by"]).to_string());
+                    kind = "cli:group-twice".into();
+                }
+                3 => {
+                    c.xargs.push(r.ps(&["--only-objects-and-arrays=true", "--only-objects-and-arrays=1"]).to_string());
+                    c.spec.ooa = false;
+                    kind = "cli:flag-with-value".into();
+                }
+                4 => {
+                    c.spec.on_error = None;
+                    c.xargs.push(r.ps(&["--on-error=Ignore", "--on-error=", "--on-error=abort", "--on-error=std-err"]).to_string());
+                    kind = "cli:bad-enum".into();
+                }
+                5 => {
+                    c.spec.skip = 0;
+                    c.xargs.push(r.ps(&["--skip=abc", "--skip=", "--skip=-1", "--skip=1.5", "--skip=18446744073709551616", "--skip= 1", "--skip=0x10"]).to_string());
+                    kind = "cli:bad-number".into();
+                }
+                _ => {
+                    c.xargs.push(r.ps(&["--no-such-option=1", "--selekt=.k", "--uniq", "--sort=.k"]).to_string());
+                    kind = "cli:unknown-option".into();
+                }
             }
         }
         _ => {
